@@ -31,7 +31,15 @@ func c19r8(p *model.Prog, r *report.Result) {
 					}
 				}
 			}
-			if !isCounter {
+			// the scan index of a hand-written loop is also "phi + 1": the counter is the one that is
+			// reset (a constant 0 leaf) or carried over unchanged somewhere
+			resets := false
+			for _, lf := range leaves {
+				if k, isK := model.ConstInt(lf); (isK && k == 0) || lf == ssa.Value(ph) {
+					resets = true
+				}
+			}
+			if !isCounter || !resets {
 				continue
 			}
 			n++
